@@ -142,3 +142,11 @@ reg("C15", "sched", "model_checking",
     "no attempt after a server close frame or after close() returned (second thread preempting everywhere, incl. the reconnect sleep).",
     "Trusted: scheduler, simulated network, and the fake external dispatcher (rel/pyevent contract) in mc/props/c15.py.",
     "DESIGN.md section 6 C15")
+
+reg("C16", "sched", "model_checking",
+    "exhaustive timing grid (interval x timeout x pong latency pattern x data traffic on a quarter-unit grid) with exploration of all tie orders of simultaneous events and of ping-thread / loop interleavings up to a preemption bound, in virtual time",
+    "All 64 (interval, timeout) pairs: invalid ones must be refused before any network activity; for valid ones pings carry the payload, are exactly one interval apart, "
+    "start within two intervals and stop at the end; a peer that falls silent after j answered pings is reported no later than two timeouts after the first unanswered ping "
+    "(and not before one timeout); a peer answering with latency 0 / half / timeout-1/4 / exactly the timeout / alternating is never reported, whatever the data traffic.",
+    "Trusted: scheduler virtual clock and tie exploration; region argument for the quarter grid (DESIGN.md C16).",
+    "DESIGN.md section 6 C16")
